@@ -78,7 +78,7 @@ class C07(Prop):
     nontrivial_rule = ("random histories on real Container/Store/PriorityStore/FilterStore objects: 1-8 driver processes, "
                        "amounts from {1,2,3,5,1/2} (plus rare invalid 0/-1), capacities 1..10 / k/2 (also for stores) / infinite, initial levels, "
                        "items [value, tag, uid] that compare equal by value only (values/priorities from a 3-4 element set, so equal-but-distinct "
-                       "items are the rule; 25% of FilterStore cases use raw int/float/bool numbers of equal value), "
+                       "items are the rule; 25% of the cases of every store kind use raw Python values tagged by type: int/float/bool/None/str/tuple, the falsy None, 0, 0.0, False, '' and () on purpose), "
                        "filters 'value = r mod m and tag = t' (tag/type filters separate equal values), "
                        "put/get in modes wait / nowait / patience (with-block + timeout, then cancel), cancels of arbitrary "
                        "(head, non-head, triggered, already cancelled) requests, delays from {0,1,2,1/2,3}; "
@@ -122,15 +122,25 @@ class C07(Prop):
         if op == "put":
             # an item is [value, tag, uid]: items of equal value compare EQUAL (==) although they are distinct
             # objects (distinct uid, possibly distinct tag); for PriorityStore the value is the priority.
-            # raw mode (FilterStore): plain numbers of equal value and different type, int/float/bool = tag 0/1/2
+            # raw mode (25% of the cases of every store kind): plain Python values, tag = type:
+            # 0 int, 1 float, 2 bool, 3 None, 4 str ('a'*value), 5 tuple ((0,)*value); the falsy ones
+            # None, 0, 0.0, False, '' and () are legal items and are generated on purpose (half of the raw items)
             self._uid += 1
             v = rng.choice([0, 1, 2]) if kind == "prio" else rng.randint(0, 3)
             if self._raw:
-                return [v, rng.choice([0, 1, 2] if v in (0, 1) else [0, 1]), 0]
+                tag = rng.choice([0, 1, 2, 3, 3, 4, 5])
+                if rng.random() < 0.5:
+                    v = 0
+                if tag == 3:
+                    v = 0
+                elif tag in (2, 4, 5):
+                    v = min(v, 1)
+                return [v, tag, 0]
             return [v, rng.choice([0, 1, 2]), self._uid]
         if kind == "filter":
             m = rng.choice([1, 1, 2, 2, 3])
-            return [m, rng.randrange(m), rng.choice([-1, -1, 0, 1, 2])]      # value = r mod m, and tag (or any: -1)
+            tags = [-1, -1, 0, 1, 2, 3, 3, 4, 5] if self._raw else [-1, -1, 0, 1, 2]
+            return [m, rng.randrange(m), rng.choice(tags)]      # value = r mod m, and tag (or any: -1)
         return None
 
     def gen_case(self, rng, tier):
@@ -146,8 +156,8 @@ class C07(Prop):
             cap = qj(rng.randint(1, 10) if kind == "container" else rng.choice([1, 1, 2, 2, 3, 4, 6, 10]))
         case = {"kind": kind, "cap": cap, "t0": rng.choice(["0/1", "0/1", "1/2", "3/1"])}
         self._uid = 0
-        self._raw = kind == "filter" and rng.random() < 0.25
-        if kind == "filter":
+        self._raw = kind != "container" and rng.random() < 0.25
+        if kind != "container":
             case["raw"] = self._raw
         if kind == "container":
             top = fr(cap) if cap is not None else F(10)
@@ -223,15 +233,34 @@ class C07(Prop):
             def __hash__(self):
                 return hash(self.v)
 
-        RAW = [int, float, bool]
         raw = bool(case.get("raw"))
+
+        def raw_item(v, tag):
+            return [int(v), float(v), bool(v), None, "a" * v, (0,) * v][tag]
+
+        def canon_raw(x):          # [value, type tag, 0]: False, 0, 0.0, None, '' and () stay distinct
+            if x is None:
+                return [0, 3, 0]
+            if isinstance(x, bool):
+                return [int(x), 2, 0]
+            if isinstance(x, int):
+                return [x, 0, 0]
+            if isinstance(x, float):
+                return [int(x), 1, 0]
+            if isinstance(x, str):
+                return [len(x), 4, 0]
+            if isinstance(x, tuple):
+                return [len(x), 5, 0]
+            raise AssertionError(f"harness: unknown item {x!r}")
 
         def canon_item(x):
             if kind == "prio":
+                if not isinstance(x, PriorityItem):
+                    raise AssertionError(f"harness: PriorityStore holds/delivers {x!r}")
                 x = x.item
             if isinstance(x, Item):
                 return [x.v, x.tag, x.uid]
-            return [int(x), RAW.index(type(x)), 0]
+            return canon_raw(x)
 
         def snapshot():
             if kind == "container":
@@ -260,14 +289,16 @@ class C07(Prop):
             if kind == "container":
                 return res.put(num(p)) if op == "put" else res.get(num(p))
             if op == "put":
-                if raw:
-                    return res.put(RAW[p[1]](p[0]))
-                it = Item(p[0], p[1], p[2])
+                it = raw_item(p[0], p[1]) if raw else Item(p[0], p[1], p[2])
                 return res.put(PriorityItem(p[0], it) if kind == "prio" else it)
             if kind == "filter":
                 m, r, t = p
                 if raw:
-                    return res.get(lambda x, m=m, r=r, t=t: x % m == r and (t < 0 or type(x) is RAW[t]))
+                    if (m, t) == (1, -1):
+                        return res.get()            # the default filter: lambda item: True
+                    if t == 3 and r == 0:
+                        return res.get(lambda x: x is None)
+                    return res.get(lambda x, m=m, r=r, t=t: canon_raw(x)[0] % m == r and (t < 0 or canon_raw(x)[1] == t))
                 return res.get(lambda x, m=m, r=r, t=t: x.v % m == r and (t < 0 or x.tag == t))
             return res.get()
 
@@ -329,8 +360,11 @@ class C07(Prop):
             st["open"]["snap"] = snapshot()
 
         def val(e):
+            # a put (and a Container get) is triggered with None; a store get with an item -- which may be None
             v = e.value
-            return None if v is None else canon_item(v)
+            if isinstance(e, Put) or kind == "container":
+                return None if v is None else ["unexpected-value", repr(v)[:40], 0]
+            return canon_item(v)
         return {"acts": acts, "log": [[rid.get(id(e), -1), val(e)] for e in sched],
                 "reqs": [[k, p] for (_r, k, p) in reqs], "error": st["error"], "steps": steps, "exhausted": exhausted}
 
@@ -599,6 +633,13 @@ class C07(Prop):
         if obs.get("error") is not None:
             return keys + ["raised"]
         acts = obs["acts"]
+        if case.get("raw"):
+            keys.append(case["kind"] + ":raw-python-values")
+            puts = [r["a"][1] for r in acts if r["a"][0] == "put"]
+            if any(p[1] == 3 for p in puts):
+                keys.append("puts-None")
+            if any(p[0] == 0 for p in puts):
+                keys.append("puts-falsy-item")
         n_c = sum(1 for r in acts if r["a"][0] == "cancel")
         if n_c:
             keys.append("has-cancel")
